@@ -169,8 +169,10 @@ variable [Transc α]
 def pow (a : Dual α) (p : α) : Dual α :=
   ⟨Transc.powf a.real p, a.vars, vscaleR (vscaleR a.dual p) (Transc.powf a.real (p - 1))⟩
 
-/-- `f64 / Dual = a * b.pow(-1)` -/
-def fDiv (a : α) (b : Dual α) : Dual α := fMul a (pow b (-1))
+/-- `f64 / Dual`: value `a / x`, derivative `−a / x²` (after the repair recorded in known_findings.json; before
+it the code computed `a * x.pow(-1)`, whose value is 1 ulp off the quotient for some `x`) -/
+def fDiv (a : α) (b : Dual α) : Dual α :=
+  ⟨a / b.real, b.vars, vscaleL (-a / (b.real * b.real)) b.dual⟩
 
 def exp (a : Dual α) : Dual α :=
   let c := Transc.exp a.real
@@ -313,7 +315,10 @@ def pow (a : Dual2 α) (p : α) : Dual2 α :=
 
 /-- `Dual2 / Dual2 = a * b.pow(-1)`; the power shares `b`'s list -/
 def div (ptrEq : Bool) (a b : Dual2 α) : Dual2 α := mul ptrEq a (pow b (-1))
-def fDiv (a : α) (b : Dual2 α) : Dual2 α := mulF (pow b (-1)) a
+def fDiv (a : α) (b : Dual2 α) : Dual2 α :=
+  let c1 := -a / (b.real * b.real)
+  let c2 := a / (b.real * b.real * b.real)
+  ⟨a / b.real, b.vars, vscaleL c1 b.dual, madd (mscaleL c1 b.dual2) (mscaleL c2 (outer b.dual b.dual))⟩
 
 def exp (a : Dual2 α) : Dual2 α :=
   let c := Transc.exp a.real
